@@ -159,7 +159,20 @@ partial def loop (h : IO.FS.Stream) (s : DState) : IO DState := do
 end Driver
 
 def main : IO Unit := do
-  let s ← Driver.loop (← IO.getStdin) {}
+  let mut s ← Driver.loop (← IO.getStdin) {}
+  if s.inCase then
+    -- the input ended inside a case: the process running the real code died (abort, stack
+    -- overflow, kill) while executing the last input line
+    let last := ((s.caseLines.toList.filter fun l => !l.startsWith "=").getLast?).getD ""
+    IO.println s!"FAIL line={s.lineNo} ORACLE prop=C06 the process running the real code died while executing: {last}"
+    IO.println "REPLAY-BEGIN"
+    for l in s.caseLines do
+      if !l.startsWith "=" then IO.println l
+    -- the generator flushes its trace before it prints the frame that processes injected bytes
+    if last.startsWith "junk" then IO.println "sframe tick=1"
+    IO.println "end"
+    IO.println "REPLAY-END"
+    s := { s with oracles := s.oracles + 1, failedCases := s.failedCases + 1 }
   for (k, n) in s.stats do
     IO.println s!"STAT {k} {n}"
   IO.println s!"SUMMARY lines={s.lineNo} records={s.records} cases={s.cases} failed_cases={s.failedCases} distinct_nontrivial={s.distinctNontrivial} mismatches={s.mismatches} oracles={s.oracles} bad={s.bads}"
